@@ -499,7 +499,7 @@ def exV : Genum.Value := { name := "A", value := 1, signed := false, deprecated 
 def exT : Genum.TraitDesc :=
   { name := "Num", ty := "int", fam := .sint 64, parsable := true, rows := [⟨exV, ⟨"int", .int 7⟩⟩] }
 def exG : GTraitDesc :=
-  { Name := "Num", «Type» := ⟨some .UntypedInt, fun _ _ => false, fun _ _ => false⟩, TypeRef := "int", Parsable := true,
+  { Name := "Num", «Type» := ⟨some .UntypedInt, 0, fun _ _ => false, fun _ _ => false⟩, TypeRef := "int", Parsable := true,
     Traits := [{ OwningValue := C04Tie.abs exV, value := "7", variableName := "_Num", repeatsParseKey := false }] }
 
 /-- the hypotheses of `go_processDuplicates_eq`, `go_validateParsable_eq`, `go_getParsable…_eq`, `go_instanceOf_eq`
